@@ -652,6 +652,15 @@ func runC08(c *RunCtx) {
 		return
 	}
 	c.Count("type."+name, 1)
+	// wire bytes of a later message of the same type (a close relative), fixed now: like everything
+	// a receiver sees they exist before any decode of this run happens
+	var laterWire []byte
+	if t.Intn(3) == 0 {
+		var vb bytes.Buffer
+		if rr := tryEncode(variantOf(s.pre, t.Bulk()), &vb); rr.Err == nil && rr.Panic == nil {
+			laterWire = cloneBytes(vb.Bytes())
+		}
+	}
 	spans, total := Layout(s.post)
 	if total != len(s.w) {
 		spans = nil
@@ -760,15 +769,13 @@ func runC08(c *RunCtx) {
 			return
 		}
 	}
-	if t.Intn(3) == 0 {
-		// the application keeps the decoded message, more traffic of the same type is decoded (a
-		// close relative, into another receiver) and encoded, then the kept message is encoded again
-		var vb bytes.Buffer
-		if rr := tryEncode(variantOf(s.pre, t.Bulk()), &vb); rr.Err == nil && rr.Panic == nil {
-			other := newValue(name)
-			if rr := tryDecode(other, bytes.NewBuffer(cloneBytes(vb.Bytes()))); rr.Err == nil && rr.Panic == nil {
-				tryEncode(other, &bytes.Buffer{})
-			}
+	if laterWire != nil {
+		// the application keeps the decoded message; the next message of the type arrives and is
+		// decoded into another receiver (and, half of the time, sent on); then the kept message
+		// is encoded again
+		other := newValue(name)
+		if rr := tryDecode(other, bytes.NewBuffer(laterWire)); rr.Err == nil && rr.Panic == nil && t.Intn(2) == 0 {
+			tryEncode(other, &bytes.Buffer{})
 		}
 		var again bytes.Buffer
 		r3 := tryEncode(recv, &again)
